@@ -499,7 +499,16 @@ class ProcProxyThread(threading.Thread):
             r = 1
         safe_flush(sp_stdout)
         safe_flush(sp_stderr)
-        self.returncode = parse_proxy_return(r, sp_stdout, sp_stderr)
+        try:
+            returncode = parse_proxy_return(r, sp_stdout, sp_stderr)
+        except OSError:
+            # Writing the returned value failed, e.g. the next process in the
+            # pipeline has exited already.  Same policy as for an OSError
+            # raised by the function itself; without this the thread would
+            # die here with returncode None and the pipeline never ends.
+            status = still_writable(self.c2pwrite) and still_writable(self.errwrite)
+            returncode = 1 if status else 0
+        self.returncode = returncode
         # Only wrappers created above may be closed here.  When no pipe was
         # set up, sp_stdout/sp_stderr are whatever sys.stdout/sys.stderr were
         # when this thread started; safe_fdclose() compares against the
